@@ -32,4 +32,34 @@ theorem respond_refused_src : respond_refused = "req, dns.RcodeRefused" := by de
 theorem sb_suffix_src : sb_suffix = "\".sb.dns.adguard.com\"" := by decide
 theorem pc_suffix_src : pc_suffix = "\".pc.dns.adguard.com\"" := by decide
 
+/-- `Matches`: no bucket ⇒ false; a stored suffix matches when prefix ++ suffix is the whole digest. -/
+theorem matches_conds_src : matches_conds = "!ok | buf == sum" := by decide
+/-- `Hashes`: nothing for no prefixes; each answer is hex(prefix) followed by hex(suffix). -/
+theorem hashes_conds_src : hashes_conds = "len(prefs) == 0" := by decide
+theorem hashes_encode_pref_src : hashes_encode_pref = "buf[:], pref[:]" := by decide
+theorem hashes_encode_suf_src : hashes_encode_suf = "buf[PrefixEncLen:], suf[:]" := by decide
+/-- `Reset` looks at the scanner error before it installs the new map (`reset`: old map kept). -/
+theorem reset_order_src : reset_order = "Err,Store" := by decide
+/-- `NewStorage` resets unless the text is empty (`newStorage`). -/
+theorem new_storage_conds_src : new_storage_conds = "hostnames != \"\" | err != nil" := by decide
+/-- `hashableSubdomains`: the cut keeps what follows the fourth dot from the end (`cutScan`'s
+`acc`), and the stop name and everything after it are dropped (`takeWhile`). -/
+theorem subs_cut_src : subs_cut = "domain[i+1:]" := by decide
+theorem subs_stop_src : subs_stop = "sub[:i]" := by decide
+/-- A legacy piece is cut to its first four characters (`piece`). -/
+theorem legacy_trunc_src : legacy_trunc = "s[:PrefixEncLen]" := by decide
+/-- The prefix string is the host without the matched suffix (`matchByPrefix`). -/
+theorem mbp_prefix_str_src : mbp_prefix_str = "host[:len(host)-len(suffix)]" := by decide
+/-- `FilterRequest`: unfilterable types first; the first hashable name that `Matches`; an empty
+match is no match (`filterRule`, `firstMatch`). -/
+theorem filter_conds_src : filter_conds =
+    "!isFlt | ok | item.matched == \"\" | f.hashes.Matches(s) | matched == \"\" | err != nil" := by decide
+/-- `refresh` resets the storage, then clears the result cache. -/
+theorem refresh_order_src : refresh_order = "Reset,clearCache" := by decide
+/-- preservice `Wrap`: only TXT questions reach `respondWithHashes` (`respond`: `qt = 16`). -/
+theorem wrap_conds_src : wrap_conds = "ri.QType == dns.TypeTXT | err != nil | resp == nil | err != nil" := by decide
+/-- The production matcher: each TXT suffix is served from the storage of its own filter. -/
+theorem wire_adult_src : wire_adult = "b.adultBlockingHashes" := by decide
+theorem wire_general_src : wire_general = "b.safeBrowsingHashes" := by decide
+
 end Agd.Tie.C11
